@@ -6,12 +6,18 @@ Tie (harness/c17_harness.cpp, real code in-process, shipped-flags and sanitizer 
   S  slicemultiply() vs PsV.sliceMultiply on small integers (exact in double): ranges, listed index set and every value exact;
   T  the same on sparse tensors with large index ranges (flattened sections of 2^16..2^22 columns: index arithmetic beyond 16 bits);
   G  splinetable::grideval and the C wrapper splinetable_grideval vs PsV.gridEval at Rat: ranges exact, listed index set
-     exact, every value within K_d*2^-53*Sum|coef|Prod|B| of the exact value.
+     exact, every value inside the proved rounding envelope (C17_grideval_rounding_envelope_tie_partial):
+     |impl - exact| <= gfac(u/(1-u), K) * majorant, u = 2^-53, K = Sum_d(5*order_d+1) + ndim + N, where the majorant (the cell
+     of PsV.gridEval on |coef| = Sum|coef|Prod B), N (PsV.NdSparse.nlisted: non-zero terms of the cell) and
+     PsV.gridRoundCount = Sum_d(5*order_d+1) are printed by the driver; worst ratio |impl-exact|/(2^-53*majorant) and K in coverage.
 Oracle (independent of the model): PsV.gridSpec = Sum_idx coef*Prod_d B_d (exact, Rat) on the implementation's output: value
 within the envelope, index ranges = grid lengths, unlisted => spec value exactly 0; real pointwise ndsplineeval<float> at every
-grid point strictly inside the knot range within (K_d*2^-53 + K_f*2^-24)*Sum|coef|Prod|B| wherever the right-continuous
+grid point strictly inside the knot range within gfac(K)*majorant + K_f*2^-24*Sum|coef|Prod|B| wherever the right-continuous
 basis of grideval and the evaluation convention coincide (PsV.gridSpec == PsV.specEval, decided exactly; by
 grideval_eq_pointwise that is everywhere except at a knot >= knots[naxes] of multiplicity > order, and the check asserts it).
+Concurrent phase: a handful of the generated tables/grids are evaluated again by 6 threads at the same time (C++ member and C entry
+point) and every result is compared bit for bit with the single-threaded one (the model is a pure function); a crash or hang of that
+phase (forked child, alarm) is reported with the tables/grids.
 Index arithmetic: the driver evaluates PsV.sliceIdxSafe / PsV.gridIdxSafe (hypothesis of slicemultiply_int_arith_exact /
 grideval_int_arith_exact: every flattened section has < 2^31 columns) on every case; a case outside it breaks the tie."""
 import json, os, struct, sys
@@ -21,6 +27,12 @@ import psvlib
 if hasattr(sys, "set_int_max_str_digits"): sys.set_int_max_str_digits(0)
 U53 = Fraction(1, 2 ** 53)
 U24 = Fraction(1, 2 ** 24)
+
+_gf = {}
+def gfac53(K):
+    """gfac eps K = (1+eps)^K - 1 at eps = u/(1-u), u = 2^-53: IEEE double round-to-nearest is RelErr eps 1 (C01_standard_model)"""
+    if K not in _gf: _gf[K] = Fraction(2 ** 53, 2 ** 53 - 1) ** K - 1
+    return _gf[K]
 
 def dbl(u): return struct.unpack("d", struct.pack("Q", int(u)))[0]
 def frac(s):
@@ -63,9 +75,10 @@ def run(ctx):
     ncases = 150 if ctx.tier == "quick" else 6000
     modes = ["shipped", "san"]
     evals = 0; nontriv = set(); dist = {}
-    worst_d = Fraction(0); worst_f = Fraction(0)
+    conc = {}
+    worst_d = Fraction(0); worst_f = Fraction(0); worst_K = [None]; worst_rel = [Fraction(0)]; kmin = [None]; kmax = [0]
     counts = {"grid_points": 0, "inside_points_compared_pointwise": 0, "convention_differs_points": 0, "unlisted_points": 0,
-              "B_lines": 0, "S_lines": 0, "T_lines": 0, "G_lines": 0, "pointwise_rejected_outside": 0, "idx_safe_cases": 0}
+              "cells_checked_against_proved_envelope": 0, "B_lines": 0, "S_lines": 0, "T_lines": 0, "G_lines": 0, "pointwise_rejected_outside": 0, "idx_safe_cases": 0}
     for mode in modes:
         exe = ctx.compile("c17_" + mode, ["c17_harness.cpp"], mode=mode, defines=["PHOTOSPLINE_INCLUDES_SPGLAM"],
                           repo_c=psvlib.FITTER_C, libs=psvlib.FITTER_LIBS)
@@ -87,6 +100,25 @@ def run(ctx):
         if not ctx.driver_ok() or not ctx.run_driver("C17", cases, model):
             ctx.tie_ok = False; ctx.broken.append({"kind": "driver failed"}); continue
         if mode == "shipped": dist = json.load(open(stats))
+        # concurrent phase: several grideval calls in flight at the same time on shared const tables vs the single-threaded results
+        try: cj = json.load(open(stats + ".conc"))
+        except Exception as e: cj = {"status": "unreadable", "error": str(e)}
+        conc[mode] = {k: cj.get(k) for k in ("status", "threads", "calls", "tables", "calls_done", "calls_differing", "signal", "exit_code")}
+        if cj.get("status") == "completed":
+            if cj.get("calls_differing", 0) > 0:
+                ctx.report("grideval:concurrent-differs", {"mode": mode, "threads": cj["threads"], "calls": cj["calls_done"], "calls_differing": cj["calls_differing"],
+                                                           "mismatches": cj["mismatches"], "tables_and_grids_case_lines": cj.get("case_lines", []),
+                                                           "replay_cmd": "VERIF_SEED=%d python3 bin/check.py C17 --tier %s" % (ctx.seed, ctx.tier)},
+                           "%d of %d grideval calls made by %d threads at the same time on shared const tables returned a result different from the single-threaded one (first: table %s, %s)"
+                           % (cj["calls_differing"], cj["calls_done"], cj["threads"], cj["mismatches"][0]["table"] if cj["mismatches"] else "?", cj["mismatches"][0]["entry"] if cj["mismatches"] else "?"))
+        elif cj.get("status") in ("crash", "hang"):
+            ctx.report("grideval:concurrent-" + cj["status"], {"mode": mode, "threads": cj.get("threads"), "signal": cj.get("signal"), "exit_code": cj.get("exit_code"),
+                                                              "tables_and_grids_case_lines": cj.get("case_lines", []), "stderr": err[-2000:],
+                                                              "replay_cmd": "VERIF_SEED=%d python3 bin/check.py C17 --tier %s" % (ctx.seed, ctx.tier)},
+                       "the process evaluating %s tables on grids from %s threads at the same time %s (signal %s, exit code %s); every one of these calls succeeds on a single thread"
+                       % (cj.get("tables"), cj.get("threads"), "hung" if cj["status"] == "hang" else "crashed", cj.get("signal"), cj.get("exit_code")))
+        elif cj.get("status") != "no-cases":
+            ctx.tie_ok = False; ctx.broken.append({"kind": "concurrent phase of the harness left no readable result", "mode": mode, "detail": cj})
         with open(cases) as fc, open(impl) as fi, open(model) as fm:
             for ln, (c, i, m) in enumerate(zip(fc, fi, fm), 1):
                 c = c.strip(); i = i.strip(); m = m.strip(); kind = c[:1]
@@ -170,17 +202,23 @@ def run(ctx):
                         ctx.violation(rep, "grideval lists index %r outside the ranges %r" % (idx, ranges))
                 pw = ip[2].split()[1:]
                 pts = mp[2]
-                K_d = 4 * sum(3 * d["order"] + 2 for d in g["dims"]) + 2 * 1
+                K_f = 4 * sum(3 * d["order"] + 2 for d in g["dims"]) + 2 * 1
                 nterm = 1
                 for d in g["dims"]: nterm *= d["order"] + 1
-                K_d += 2 * nterm + 8; K_f = K_d
+                K_f += 2 * nterm + 8
+                # proved envelope (C17_grideval_rounding_envelope_tie_partial): K = gridRoundCount dims + ndim + N(cell), all three from the driver / the case
+                K0 = int(mp[4][0].split("=")[1]) if len(mp) > 4 and mp[4] and mp[4][0].startswith("K0=") else None
+                if K0 is None or K0 != sum(5 * d["order"] + 1 for d in g["dims"]):
+                    broke("driver did not report PsV.gridRoundCount = Sum_d(5*order_d+1)"); continue
                 idxs = all_idx(ranges)
-                if len(pts) != 4 * len(idxs) or len(pw) != len(idxs): broke("line shape"); continue
+                if len(pts) != 6 * len(idxs) or len(pw) != len(idxs): broke("line shape"); continue
                 listed_model = parse_listed(mp[1], nd)
                 nan_seen = False
                 for q, idx in enumerate(idxs):
                     counts["grid_points"] += 1
-                    get, spec, spt, mag = (frac(z) for z in pts[4 * q:4 * q + 4])
+                    get, spec, spt, mag, maj = (frac(z) for z in pts[6 * q:6 * q + 5]); N = int(pts[6 * q + 5])
+                    K = K0 + nd + N
+                    if maj != mag: broke("majorant cell of PsV.gridEval on |coef| != Sum|coef|Prod|B| of the specification (instance of grideval_eq_spec + C17_basis_rounding: basis values >= 0)", point=[g["coords"][d][idx[d]] for d in range(nd)])
                     x = [g["coords"][d][idx[d]] for d in range(nd)]
                     if get != spec: broke("PsV.gridEval.get != PsV.gridSpec at Rat (instance of grideval_eq_spec)", point=x)
                     bitsl = ent.get(idx)
@@ -198,10 +236,17 @@ def run(ctx):
                             else:
                                 ctx.violation(dict(rep, grid_index=idx, x=x), "grideval returned a non-finite value at %r" % (x,))
                             continue
-                    tol = K_d * U53 * mag
+                    tol = gfac53(K) * maj
+                    if maj > 0: counts["cells_checked_against_proved_envelope"] += 1
                     if abs(iv - spec) > tol:
-                        ctx.violation(dict(rep, grid_index=idx, x=x, spec=str(spec), impl=float(iv)), "grideval value %r at %r differs from the exact tensor-product sum %r by more than %d*2^-53*%r" % (float(iv), x, float(spec), K_d, float(mag)))
-                    elif mag > 0: worst_d = max(worst_d, abs(iv - spec) / (U53 * mag))
+                        ctx.violation(dict(rep, grid_index=idx, x=x, spec=str(spec), impl=float(iv), K=K, N=N, majorant=str(maj)),
+                                      "grideval value %r at %r is outside the proved rounding envelope: differs from the exact tensor-product sum %r by %.3g*2^-53*majorant, more than gfac(u/(1-u), K=%d)*majorant, majorant = Sum|coef|Prod B = %r (K = Sum_d(5*order_d+1) + ndim + N, N = %d non-zero terms)"
+                                      % (float(iv), x, float(spec), float(abs(iv - spec) / (U53 * maj)) if maj > 0 else float("inf"), K, float(maj), N))
+                    elif maj > 0:
+                        r = abs(iv - spec) / (U53 * maj)
+                        if r > worst_d: worst_d = r; worst_K[0] = K
+                        worst_rel[0] = max(worst_rel[0], r / K)
+                        kmin[0] = K if kmin[0] is None else min(kmin[0], K); kmax[0] = max(kmax[0], K)
                     inside = all(d["knots"][0] < xv < d["knots"][-1] for d, xv in zip(g["dims"], x))
                     if not inside:
                         if pw[q] == "x": counts["pointwise_rejected_outside"] += 1
@@ -220,10 +265,10 @@ def run(ctx):
                     if pv is None:
                         ctx.violation(dict(rep, grid_index=idx, x=x), "pointwise evaluation is not finite at %r (grid value %r)" % (x, float(iv))); continue
                     counts["inside_points_compared_pointwise"] += 1
-                    tolp = (K_d * U53 + K_f * U24) * mag
+                    tolp = gfac53(K) * maj + K_f * U24 * mag
                     if abs(iv - pv) > tolp:
                         ctx.violation(dict(rep, grid_index=idx, x=x, grid=float(iv), pointwise=float(pv), exact=str(spec)),
-                                      "grideval %r and pointwise evaluation %r differ at %r (strictly inside the knot range) by more than (%d*2^-53+%d*2^-24)*%r" % (float(iv), float(pv), x, K_d, K_f, float(mag)))
+                                      "grideval %r and pointwise evaluation %r differ at %r (strictly inside the knot range) by more than (gfac(K=%d)+%d*2^-24)*%r" % (float(iv), float(pv), x, K, K_f, float(mag)))
                     elif mag > 0: worst_f = max(worst_f, abs(pv - spec) / (U24 * mag))
                 if not nan_seen and set(ent) != listed_model: broke("set of listed grid indices differs from the model's")
                 if ent: nontriv.add(c)
@@ -236,9 +281,14 @@ def run(ctx):
                             "an S case where slicemultiply succeeded and agreed, a B case that agreed bit for bit")
     ctx.coverage["input_distribution"] = dist
     ctx.coverage["counts"] = counts
+    ctx.coverage["concurrent_phase"] = conc
     ctx.coverage["worst_grid_vs_exact_in_units_of_2^-53*mag"] = float(worst_d)
+    ctx.coverage["proved_envelope"] = {"theorem": "C17_grideval_rounding_envelope_tie_partial", "K": "Sum_d(5*order_d+1) + ndim + N(cell)",
+                                       "K_at_worst_cell": worst_K[0], "K_range_over_checked_cells": [kmin[0], kmax[0]],
+                                       "worst_ratio_|impl-exact|/(2^-53*majorant)": float(worst_d), "worst_ratio_over_K": float(worst_rel[0])}
     ctx.coverage["worst_pointwise_vs_exact_in_units_of_2^-24*mag"] = float(worst_f)
-    ctx.assumptions += ["rounding envelope: |grideval - exact| <= K*2^-53*Sum|coef|Prod|B| with K = 4*Sum_d(3*order_d+2) + 2*Prod_d(order_d+1) + 10 (double accumulation inside CHOLMOD, order unknown); pointwise float evaluation adds K*2^-24 of the same magnitude",
+    ctx.assumptions += ["rounding envelope of grideval: proved (C17_grideval_rounding_envelope_partial / _tie_partial) for the model run with any roundings of relative error eps: |rounded - exact| <= gfac(eps, K)*majorant at every cell, K = Sum_d(5*order_d+1) + N (+ ndim for the check), majorant = the cell of the same model on |coef| (= Sum|coef|Prod B, printed by the driver, as are N and Sum_d(5*order_d+1)); checked on every compared cell at eps = u/(1-u), u = 2^-53; assumed: no underflow/overflow (standard model), and that CHOLMOD adds the products of a cell up by recursive summation in some order, slice by slice (the model adds them when the cell is read; the + ndim covers the difference, argument at the theorem); pointwise float evaluation adds K_f*2^-24*Sum|coef|Prod|B| with the measured-envelope constant K_f = 4*Sum_d(3*order_d+2) + 2*Prod_d(order_d+1) + 10 (C01 proves its own envelope)",
+                        "concurrency: the model of grideval is a pure function of table and grid, so a result cannot depend on other calls in flight; checked by the harness's concurrent phase (6 threads, C++ member and C entry point, shared const tables, every result compared bit for bit with the single-threaded one, forked child with an alarm) - a test of the schedules that occurred, not a proof of thread safety",
                         "CHOLMOD (ssmult, triplet/sparse conversion) is modelled by its mathematical meaning: equal (row,col) contributions are added, exact zeros of the basis matrix are not stored",
                         "int / unsigned / long index arithmetic of slicemultiply: proved exact (no wrap-around, no zero divisor) whenever the flattened section has < 2^31 columns (slicemultiply_int_arith_exact, grideval_int_arith_exact about the C-typed model PsV.sliceMultiplyC); the decidable hypothesis is evaluated on every generated case; still assumed: the entry counter `int i < a->rows` (needs fewer than 2^31 stored entries) and CHOLMOD's internal index arithmetic",
                         "ownership of the C wrapper's result is released through the C++ type in the harness (ndsparse_destroy deletes through the C base type: C18's finding)"]
